@@ -31,7 +31,14 @@ const BOUNDARY: &[u8] = b"/09:@AZ[`az{ $%*+-.,#&'()!\"\x00\x1f\x7f\x80\xff;<=>?"
 pub fn check(input: &Vec<u8>, obs: &mut Obs) -> Result<(), Fail> {
     let want = classify(input);
     // level L so that long strings still fit; mode, version and mask automatic / irrelevant
-    let bc = BuildCase::new(input.clone(), Opts { mode: None, level: Some(Level::L), version: None, mask: Some((input.len() % 8) as u8) });
+    let mut bc = BuildCase::new(input.clone(), Opts { mode: None, level: Some(Level::L), version: None, mask: Some((input.len() % 8) as u8) });
+    // half of the cases are built right after a related build on the same thread (the input extended by a character of
+    // a wider / the same class, the input without its last character, same length with other content, same input under
+    // other options): the mode must be decided from the bytes of THIS input alone
+    bc.pred = [0u8, 0, 0, 0, 2, 2, 6, 4, 3, 5, 1, 2][(crate::engine::hash_bytes(input) % 12) as usize];
+    if bc.pred != 0 {
+        obs.label("after_related_build");
+    }
     let built = match do_build(&bc)? {
         Ok(b) => b,
         Err(e) => {
